@@ -18,6 +18,20 @@ def main():
     only = set(sys.argv[1:])
     assert sh("git -C %s status --porcelain" % REPO).stdout.strip() == "", "repo not clean"
     results = []
+    import shutil, tempfile
+    keep = tempfile.mkdtemp(prefix="evid.")
+    shutil.copytree(os.path.join(VERIF, "evidence"), os.path.join(keep, "evidence"))
+    try:
+        _run(ms, only, results)
+    finally:
+        shutil.rmtree(os.path.join(VERIF, "evidence"), ignore_errors=True)
+        shutil.copytree(os.path.join(keep, "evidence"), os.path.join(VERIF, "evidence"))
+        shutil.rmtree(keep, ignore_errors=True)
+    bad = [r for r in results if r[1] is False]
+    print("%d results, %d unexpected" % (len(results), len(bad)))
+
+
+def _run(ms, only, results):
     for m in ms:
         if only and m["id"] not in only and not (set(m["props"]) & only):
             continue
@@ -43,8 +57,6 @@ def main():
                 results.append((m["id"], ok))
         finally:
             sh("git -C %s checkout -- ." % REPO)
-    bad = [r for r in results if r[1] is False]
-    print("%d results, %d unexpected" % (len(results), len(bad)))
 
 
 if __name__ == "__main__":
